@@ -24,10 +24,10 @@ package props
 //   generator  : a corpus package the generator accepted but whose Go code does not compile
 
 import (
-	"os"
 	"encoding/json"
 	"fmt"
 	"math"
+	"os"
 	"path/filepath"
 	"reflect"
 	"sort"
